@@ -55,8 +55,8 @@ theorem weekday_epoch : weekday std_unix_epoch = 3 := by decide +kernel
 
 /-! ### datetime ↔ Unix seconds
 Floats are abstract: the statements hold for every carrier `F` and operations `O` that satisfy the stated law of
-exact arithmetic (`DivModLaw`: t = 60·⌊t/60⌋ + t mod 60; `AddLaw`: adding whole minutes to seconds in [0,60) and
-dividing again returns the parts).  The laws are satisfiable: exact binary fixed point satisfies both (examples).
+exact arithmetic (`DivModLaw`: (t − 60·⌊t/60⌋) + 60·⌊t/60⌋ = t; `AddLaw`: adding whole minutes to seconds in [0,60) and
+splitting again returns the parts).  The laws are satisfiable: exact binary fixed point satisfies both (examples).
 IEEE doubles satisfy them for the times the tie samples (multiples of 2^-10 s in ±10^11 s); for other doubles they
 can fail by rounding (design/C20.md). -/
 
